@@ -131,7 +131,33 @@ func detect() string {
 	m.Close()
 	db.Close()
 
-	return fmt.Sprintf("f1=%s f2=%s f2b=%s f3=%s f11=%s f12=%s hl=%s", b(f1), b(f2), b(f2b), b(f3), b(f11), b(f12), b(hl))
+	// fo1 (Unlock restores cryptoKeyScript) and f13 (the OnCommit closure wipes objects cached after a Lock)
+	db, m = fresh()
+	s, _ = m.FetchScopedKeyManager(scopes[1])
+	_ = upd(db, func(ns walletdb.ReadWriteBucket) error { return m.Unlock(ns, pass(1)) })
+	fo1 := false
+	for _, x := range m.VerifBufferReport() {
+		if x.Name == "cryptoKeyScript" && x.State == "nonzero" {
+			fo1 = true
+		}
+	}
+	_ = upd(db, func(ns walletdb.ReadWriteBucket) error {
+		if _, err := s.NextExternalAddresses(ns, 0, 1); err != nil {
+			return err
+		}
+		return m.Lock()
+	})
+	f13 := true
+	for _, x := range m.VerifBufferReport() {
+		if strings.HasSuffix(x.Name, ".privKeyCT") && x.State == "nonzero" {
+			f13 = false
+		}
+	}
+	m.Close()
+	db.Close()
+
+	return fmt.Sprintf("f1=%s f2=%s f2b=%s f3=%s f11=%s f12=%s hl=%s f13=%s fo1=%s", b(f1), b(f2), b(f2b), b(f3), b(f11),
+		b(f12), b(hl), b(f13), b(fo1))
 }
 
 // ---------------------------------------------------------------- generator
@@ -556,6 +582,30 @@ func scenarios(rng *rand.Rand, flags string) []core.Case {
 		g.add("lock")
 		g.add("bufs")
 	})
+	// F13: Lock between NextAddresses and the commit of its transaction
+	for _, internal := range []int{0, 1} {
+		in := internal
+		mk("scn-f13", func(g *gen) {
+			g.create(5, 1, []int{1, 2})
+			g.add("unlock p=1")
+			g.add("impscript sc=1 kind=1 sid=4 secret=1")
+			g.keys["1/s:1:4"] = true
+			g.add("script sc=1 key=s:1:4")
+			g.begin()
+			g.add("next sc=1 acct=0 n=2 int=%d", in)
+			g.add("next sc=2 acct=0 n=1 int=%d", 1-in)
+			g.noteKeys(1, 0, in, 0, 2)
+			g.noteKeys(2, 0, 1-in, 0, 1)
+			g.add("lock")
+			g.add("bufs")
+			g.end("commit")
+			g.probes()
+			g.add("unlock p=1")
+			g.probes()
+			g.add("lock")
+			g.add("bufs")
+		})
+	}
 	// lead (b): change the private passphrase while unlocked, then Unlock(old)/Unlock(new) BEFORE any lock
 	for _, first := range []string{"old", "new"} {
 		f := first
